@@ -36,6 +36,9 @@ enum Fault {
     PartialLast,  // all but the last byte
     DiskFull,     // on append: nothing written; on create: file not created
     FsyncFail,
+    /// half of the bytes reach the file and the call fails with a plain I/O error (what write_all reports after a
+    /// short write followed by ENOSPC/EIO on a real file; only the simulated store reports PartialWrite)
+    ShortWriteIo,
 }
 
 #[derive(Clone, Copy, Debug, PartialEq, Eq, Hash, PartialOrd, Ord)]
@@ -50,7 +53,7 @@ enum Call {
 fn kinds_for(c: Call) -> &'static [Fault] {
     match c {
         Call::Create => &[Fault::DiskFull],
-        Call::Append => &[Fault::AppendFail, Fault::PartialFirst, Fault::PartialMid, Fault::PartialLast, Fault::DiskFull],
+        Call::Append => &[Fault::AppendFail, Fault::PartialFirst, Fault::PartialMid, Fault::PartialLast, Fault::DiskFull, Fault::ShortWriteIo],
         Call::Sync => &[Fault::FsyncFail],
         Call::Delete => &[],
     }
@@ -134,6 +137,7 @@ impl WalFileWriter for PlanWriter {
             Some(Fault::PartialFirst) => partial(1),
             Some(Fault::PartialMid) => partial(n / 2),
             Some(Fault::PartialLast) => partial(n.saturating_sub(1)),
+            Some(Fault::ShortWriteIo) => ((n / 2).min(n.saturating_sub(1)), Err(WalError::Io(std::io::Error::new(std::io::ErrorKind::Other, "planned short write, then I/O error")))),
             _ => (n, Ok(())),
         };
         g.files[self.file].1.extend_from_slice(&data[..wrote]);
@@ -985,7 +989,7 @@ pub fn wal_leg(args: &Args) {
     if c("nondeterministic_bases") > 0 || c("nondeterministic_fault_placements") > 0 || c("planned_fault_not_hit") > 0 {
         cx.rep.inconclusive("executions were not deterministic: some planned faults did not land on the intended call");
     }
-    for k in ["AppendFail", "PartialFirst", "PartialMid", "PartialLast", "DiskFull", "FsyncFail"] {
+    for k in ["AppendFail", "PartialFirst", "PartialMid", "PartialLast", "DiskFull", "FsyncFail", "ShortWriteIo"] {
         if c(&format!("fault_kind:{}", k)) == 0 {
             cx.rep.inconclusive(format!("fault kind {} never placed", k));
         }
